@@ -96,7 +96,7 @@ def overlap_case(draw, tier):
     lv = canon.table_column(L, L["attr"])["values"]
     rv = canon.table_column(R, R["attr"])["values"]
     case = {"tok": tokcfg, "L": L, "R": R, "measure": "OVERLAP", "ftype": "overlap",
-            "threshold": draw(gen.overlap_threshold(tokcfg, lv, rv)),
+            "threshold": draw(gen.overlap_threshold(tokcfg, lv, rv, fractional=True)),
             "op": draw(st.sampled_from([">=", ">", "="])),
             "allow_missing": draw(st.booleans())}
     case.update(draw(gen.common_config(L, R)))
